@@ -68,6 +68,18 @@ def venc(v):
     return None if v is None else json.dumps(v)
 
 
+def mvec(model, t):
+    """vector of text t under the stub model named `<id>.<dim>` (multi-index cases): different ids give different
+    vectors for every text, dims differ between some models"""
+    dim = int(model.rsplit(".", 1)[1])
+    d = hashlib.md5((model + "|v:" + t).encode("utf-8")).digest()
+    return [b / 7.0 for b in d[:dim - 1]] + [float(len(t))]
+
+
+_MLATS = {}     # model name -> {"lats": [...], "calls": [...]} for the current multi-index case
+_MSTEPS = None  # [n] event-wait counter while a multi-index case runs (busy-loop guard without the recorder)
+
+
 # ----------------------------------------------------------------------------- static tie
 
 EXPECTED_AWAITS = {
@@ -157,6 +169,10 @@ def _setup():
             rec = _REC
             if rec is not None:
                 rec.ev_wait(self)
+            elif _MSTEPS is not None:
+                _MSTEPS[0] += 1
+                if _MSTEPS[0] > 200000:
+                    raise SpinDetected("instrumentation step limit: busy loop")
             r = await super().wait()
             if rec is not None:
                 rec.ev_woke(self)
@@ -227,6 +243,30 @@ def _setup():
         def encode(self, documents):
             return [vec(t) for t in documents]
 
+    class _Stub2(EmbeddingModel):
+        """multi-index cases: created through the REAL path (`register_embedding_provider` -> `_init_model` ->
+        `init_embedding_model` and its process-wide instance table); the model name carries identity and dimension"""
+        engine_name = "verif_stub2"
+
+        def __init__(self, embedding_model):
+            self.name = embedding_model
+
+        async def encode_async(self, documents):
+            st = _MLATS.get(self.name)
+            lat = None
+            if st is not None:
+                st["calls"].append(list(documents))
+                lat = st["lats"][(len(st["calls"]) - 1) % len(st["lats"])] if st["lats"] else None
+            if lat is not None:
+                await asyncio.sleep(lat)
+            return [mvec(self.name, t) for t in documents]
+
+        def encode(self, documents):
+            return [mvec(self.name, t) for t in documents]
+
+    from nemoguardrails.embeddings.providers import register_embedding_provider
+    register_embedding_provider(_Stub2, "verif_stub2")
+
     class HexKeyGenerator(KeyGenerator):
         name = "verif_hex"
 
@@ -236,15 +276,25 @@ def _setup():
     class SharedStore(CacheStore):
         name = "verif_shared"
         data = {}
+        slots = {}  # multi-index cases: store_config {"slot": k} selects one of several shared stores
+
+        def __init__(self, slot=None):
+            self.slot = slot
+
+        def _d(self):
+            return SharedStore.data if self.slot is None else SharedStore.slots.setdefault(self.slot, {})
 
         def get(self, key):
-            return SharedStore.data.get(key)
+            return self._d().get(key)
 
         def set(self, key, value):
-            SharedStore.data[key] = value
+            self._d()[key] = value
 
         def clear(self):
-            SharedStore.data = {}
+            if self.slot is None:
+                SharedStore.data = {}
+            else:
+                SharedStore.slots[self.slot] = {}
 
     globals()["SharedStore"] = SharedStore
     globals()["_KEEP"] = (HexKeyGenerator, SharedStore, TEvent, Shim)  # __subclasses__() holds weak references only
@@ -497,6 +547,8 @@ def run_impl(case):
     try:
         if case["kind"] == "fn":
             return _run_fn(case, tmpdir)
+        if case["kind"] == "multi":
+            return _run_multi(case, tmpdir)
         return _run_sched(case, tmpdir)
     finally:
         shutil.rmtree(tmpdir, ignore_errors=True)
@@ -613,6 +665,407 @@ def _run_sched(case, tmpdir):
             pass
 
 
+
+# ----------------------------------------------------------------------------- several indexes in one process
+
+def _m_cache_config(spec, tmpdir):
+    c = spec["cache"]
+    if c["store"] == "off":
+        return {"enabled": False}
+    sc = {}
+    if c["store"] == "filesystem":
+        sc = {"cache_dir": os.path.join(tmpdir, "fs%d" % c.get("loc", 0))}
+    elif c["store"] == "verif_shared":
+        sc = {"slot": c.get("loc", 0)}
+    return {"enabled": True, "store": c["store"], "key_generator": c["keygen"], "store_config": sc}
+
+
+def _m_loc(spec, i):
+    """declared identity of the store of index i: indexes with equal identity read and write the same entries.
+    `in_memory` is a new empty store object per call (EmbeddingsCache.from_config), i.e. shared with nobody."""
+    c = spec["cache"]
+    if c["store"] == "filesystem":
+        return c.get("loc", 0)
+    if c["store"] == "verif_shared":
+        return 100 + c.get("loc", 0)
+    return 1000 + i
+
+
+def _m_persistent(spec):
+    return spec["cache"]["store"] in ("filesystem", "verif_shared")
+
+
+def _m_texts(case):
+    out = []
+    for ph in case["phases"]:
+        for op in ph["ops"]:
+            for t in (op.get("texts") or ([op["text"]] if "text" in op else [])):
+                if t not in out:
+                    out.append(t)
+    return out
+
+
+def _m_ops(case):
+    k = 0
+    for pi, ph in enumerate(case["phases"]):
+        for op in ph["ops"]:
+            yield k, pi, ph, op
+            k += 1
+
+
+def _run_multi(case, tmpdir):
+    global _MSTEPS
+    from nemoguardrails.embeddings.cache import EmbeddingsCache
+    from nemoguardrails.embeddings.index import IndexItem
+    import nemoguardrails.embeddings.providers as prov
+
+    specs = case["indexes"]
+    try:
+        prov._embedding_model_cache.clear()  # replays must not depend on what an earlier case left in this worker
+    except AttributeError:
+        pass
+    SharedStore.slots = {}
+    _MLATS.clear()
+    for sp in specs:
+        _MLATS.setdefault(sp["model"], {"lats": sp.get("lats") or [None], "calls": []})
+    texts = _m_texts(case)
+    obs = {"keys": [], "vecs": []}
+    for sp in specs:
+        kg = _keygen(sp["cache"]["keygen"]) if sp["cache"]["store"] != "off" else None
+        obs["keys"].append([[t, kg.generate_key(t)] for t in texts] if kg else [[t, "off:" + t] for t in texts])
+        obs["vecs"].append([[t, venc(mvec(sp["model"], t))] for t in texts])
+
+    def make(i):
+        sp = specs[i]
+        return TIndex(embedding_model=sp["model"], embedding_engine="verif_stub2", use_batching=sp.get("batching", False),
+                      max_batch_size=sp.get("max", 3), max_batch_hold=sp.get("hold", 1.0), cache_config=_m_cache_config(sp, tmpdir))
+
+    loop = VLoop()
+    _MSTEPS = [0]
+    try:
+        idxs = [make(i) for i in range(len(specs))]
+        results = {}
+
+        async def run_op(k, op):
+            name = f"op{k}"
+            ix = idxs[op["ix"]]
+            try:
+                if op["op"] == "get":
+                    r = await ix._get_embeddings(list(op["texts"]))
+                    results[name] = {"status": "ok", "vecs": [venc(v) for v in r]} if isinstance(r, list) else {"status": "exc: not a list"}
+                elif op["op"] == "search":
+                    if ix._index is None:
+                        ix._index = FakeAnnoy()
+                    await ix.search(op["text"])
+                    results[name] = {"status": "ok", "vecs": [venc(ix._index.seen.get(name))]}
+                elif op["op"] == "add":
+                    if ix._index is not None:
+                        await ix.add_items([IndexItem(text=t, meta={}) for t in op["texts"]])
+                        results[name] = {"status": "ok", "skipped": True, "vecs": []}
+                    else:
+                        n0 = len(ix._embeddings)
+                        await ix.add_items([IndexItem(text=t, meta={}) for t in op["texts"]])
+                        results[name] = {"status": "ok", "vecs": [venc(v) for v in ix._embeddings[n0:]], "size": ix._embedding_size,
+                                         "first_len": len(ix._embeddings[0]) if ix._embeddings else None}
+            except SpinDetected as e:
+                results[name] = {"status": "spin: " + str(e)}
+            except Exception as e:  # noqa
+                results[name] = {"status": "exc: " + type(e).__name__ + ": " + str(e)[:80]}
+
+        async def main():
+            hung = 0
+            k = 0
+            for ph in case["phases"]:
+                if ph["mode"] == "seq":
+                    for op in ph["ops"]:
+                        if op["op"] == "recreate":
+                            idxs[op["ix"]] = make(op["ix"])  # a second index object with the same configuration
+                            results[f"op{k}"] = {"status": "ok", "vecs": []}
+                        else:
+                            t = loop.create_task(run_op(k, op), name=f"op{k}")
+                            done, pending = await asyncio.wait([t], timeout=1e6)
+                            for p in pending:
+                                p.cancel()
+                                hung += 1
+                        k += 1
+                else:
+                    t0 = loop.time()
+                    tasks = []
+                    for at, kk, op in sorted((op.get("at", 0), k + j, op) for j, op in enumerate(ph["ops"])):
+                        if t0 + at > loop.time():
+                            await asyncio.sleep(t0 + at - loop.time())
+                        tasks.append(loop.create_task(run_op(kk, op), name=f"op{kk}"))
+                    k += len(ph["ops"])
+                    if tasks:
+                        done, pending = await asyncio.wait(tasks, timeout=1e6)
+                        for p in pending:
+                            p.cancel()
+                            hung += 1
+                for _ in range(3):
+                    await asyncio.sleep(0)
+            return hung
+
+        obs["hung"] = loop.run_until_complete(main())
+        obs["ops"] = [results.get(f"op{k}", {"status": "hung"}) for k, _, _, _ in _m_ops(case)]
+        obs["model_calls"] = {m: st["calls"] for m, st in _MLATS.items()}
+        obs["leftover"] = [{"queue": len(ix._req_queue), "results": len(ix._req_results)} for ix in idxs]
+        # final content of every declared store location
+        stores = {}
+        for i, sp in enumerate(specs):
+            if not _m_persistent(sp):
+                continue
+            loc = _m_loc(sp, i)
+            if sp["cache"]["store"] == "filesystem":
+                d = os.path.join(tmpdir, "fs%d" % sp["cache"].get("loc", 0))
+                ent = []
+                for fn in (os.listdir(d) if os.path.isdir(d) else []):
+                    with open(os.path.join(d, fn)) as f:
+                        ent.append([fn, venc(json.load(f))])
+                stores[str(loc)] = sorted(ent)
+            else:
+                stores[str(loc)] = sorted([k, venc(v)] for k, v in SharedStore.slots.get(sp["cache"].get("loc", 0), {}).items())
+        obs["stores"] = stores
+        # store identity, observed on the real objects (hypothesis of cached_correct_multi): does an entry written through
+        # the store that index i's configuration yields show up in the store that index j's configuration yields?
+        # (i == j: two store objects built from the same configuration = what two successive calls of one index see)
+        n = len(specs)
+        shares = [[False] * n for _ in range(n)]
+        try:
+            for i in range(n):
+                if not idxs[i].cache_config.enabled:
+                    continue
+                probe = "verif-probe-%d" % i
+                EmbeddingsCache.from_config(idxs[i].cache_config)._cache_store.set(probe, [0.5])
+                for j in range(n):
+                    if idxs[j].cache_config.enabled:
+                        shares[i][j] = EmbeddingsCache.from_config(idxs[j].cache_config)._cache_store.get(probe) is not None
+            obs["shares"] = shares
+        except Exception as e:  # noqa
+            obs["shares"] = "probe failed: " + type(e).__name__ + ": " + str(e)[:80]
+        return obs
+    finally:
+        _MSTEPS = None
+        try:
+            loop.close()
+        except Exception:  # noqa
+            pass
+
+
+def _m_declared_shares(case):
+    specs = case["indexes"]
+    n = len(specs)
+    return [[(specs[i]["cache"]["store"] != "off" and specs[j]["cache"]["store"] != "off" and _m_persistent(specs[i])
+              and _m_loc(specs[i], i) == _m_loc(specs[j], j)) for j in range(n)] for i in range(n)]
+
+
+def _m_all_seq(case):
+    return all(ph["mode"] == "seq" for ph in case["phases"])
+
+
+def _m_foreign(case, i):
+    """indexes with a DIFFERENT embedding model whose cache entries index i can read: same store location and same key
+    generator (the region outside the hypothesis of cached_correct_multi; open finding shared-store-different-models)"""
+    specs = case["indexes"]
+    if not _m_persistent(specs[i]):
+        return []
+    return [j for j in range(len(specs)) if j != i and specs[j]["model"] != specs[i]["model"] and _m_persistent(specs[j])
+            and _m_loc(specs[j], j) == _m_loc(specs[i], i) and specs[j]["cache"]["keygen"] == specs[i]["cache"]["keygen"]]
+
+
+def _m_oracle(case, obs):
+    specs = case["indexes"]
+    for i, keys in enumerate(obs["keys"]):
+        ks = [k for _, k in keys]
+        if len(set(ks)) != len(ks):
+            return None  # key collision among the texts in use
+    first_known = None
+    for k, pi, ph, op in _m_ops(case):
+        o = obs["ops"][k]
+        i = op["ix"]
+        model = specs[i]["model"]
+        where = f"op {k} (phase {pi} {ph['mode']}, index {i} model {model} cache {specs[i]['cache']['store']}) {op['op']}"
+        if o["status"] != "ok":
+            return f"{where} did not complete: {o['status']}"
+        if op["op"] == "recreate" or o.get("skipped"):
+            continue
+        texts = op["texts"] if "texts" in op else [op["text"]]
+        exp = [venc(mvec(model, t)) for t in texts]
+        if o["vecs"] != exp:
+            bad = [q for q in range(max(len(exp), len(o["vecs"]))) if q >= len(exp) or q >= len(o["vecs"]) or exp[q] != o["vecs"][q]]
+            q = bad[0]
+            got = o["vecs"][q] if q < len(o["vecs"]) else "missing"
+            owner = [f"model {sp['model']}'s vector of {t!r}" for sp in specs for t in _m_texts(case) if venc(mvec(sp["model"], t)) == got]
+            msg = (f"{where} texts {texts}: position {q} is not the vector model {model} gives for {texts[q] if q < len(texts) else '?'!r}"
+                   + (f" (it is {owner[0]})" if owner else f" (got {got})"))
+            # exact cross-talk through a store that the configuration shares between different models?
+            xt = q < len(texts) and any(got == venc(mvec(specs[j]["model"], texts[q])) for j in _m_foreign(case, i))
+            if xt and all(bq < len(texts) and bq < len(o["vecs"]) and any(o["vecs"][bq] == venc(mvec(specs[j]["model"], texts[bq])) for j in _m_foreign(case, i)) for bq in bad):
+                if first_known is None:
+                    first_known = "[shared-store] " + msg
+                continue
+            return msg
+        if op["op"] == "add" and o.get("size") is not None and o["size"] != o.get("first_len"):
+            return f"{where}: embedding_size {o['size']} is not the length of the stored vectors"
+    return first_known
+
+
+def _m_signature(case, obs, msg):
+    if msg.startswith("[shared-store] "):
+        return "shared-store-different-models"
+    return None
+
+
+def _m_model_requests(case, obs):
+    if not _m_all_seq(case):
+        return []
+    specs = case["indexes"]
+    ixs = [{"cfg": {"enabled": sp["cache"]["store"] != "off", "persistent": _m_persistent(sp)}, "loc": _m_loc(sp, i),
+            "keys": obs["keys"][i], "vecs": obs["vecs"][i]} for i, sp in enumerate(specs)]
+    ops = []
+    for k, pi, ph, op in _m_ops(case):
+        if op["op"] == "recreate" or obs["ops"][k].get("skipped"):
+            ops.append([op["ix"], None])
+        else:
+            ops.append([op["ix"], op["texts"] if "texts" in op else [op["text"]]])
+    return [{"m": "C19.multi", "indexes": ixs, "ops": ops}]
+
+
+def _m_compare(case, obs, mouts):
+    if obs.get("shares") != _m_declared_shares(case):
+        return (f"store identity differs from the model's: observed sharing relation of the real store objects {obs.get('shares')}, "
+                f"modelled {_m_declared_shares(case)} (in_memory = new empty store per call, filesystem = one store per cache_dir)")
+    if not mouts:
+        return None
+    m = mouts[0]
+    for k, (o, mr) in enumerate(zip(obs["ops"], m["results"])):
+        if mr is None:
+            continue
+        if o["status"] != "ok":
+            return f"op {k}: implementation {o['status']}, model {mr}"
+        if o["vecs"] != mr:
+            return f"op {k}: impl returned {o['vecs']}, model {mr}"
+    ms = {str(l): sorted(st) for l, st in m["stores"]}
+    for l, st in obs["stores"].items():
+        if st != ms.get(l, []):
+            return f"final store at location {l} differs: impl {st} model {ms.get(l, [])}"
+    return None
+
+
+def _m_nontrivial(case, obs):
+    specs = case["indexes"]
+    if len(set(sp["model"] for sp in specs)) < 2:
+        return False
+    seen = {}
+    for k, pi, ph, op in _m_ops(case):
+        for t in (op.get("texts") or ([op["text"]] if "text" in op else [])):
+            seen.setdefault(t, set()).add(specs[op["ix"]]["model"])
+    return any(len(v) >= 2 for v in seen.values()) and any(sp["cache"]["store"] != "off" for sp in specs)
+
+
+def _m_tags(case, obs):
+    specs = case["indexes"]
+    t = ["kind:multi", "nidx:%d" % len(specs), "models:%d" % len(set(sp["model"] for sp in specs)),
+         "dims:%d" % len(set(sp["model"].rsplit(".", 1)[1] for sp in specs))]
+    for st in sorted(set(sp["cache"]["store"] for sp in specs)):
+        t.append("mcache:" + st)
+    if any(_m_foreign(case, i) for i in range(len(specs))):
+        t.append("hyp:store-shared-by-different-models")
+    elif any(any(r[j] for j in range(len(r)) if j != i) for i, r in enumerate(_m_declared_shares(case))):
+        t.append("store-shared-by-same-model")
+    t.append("phases:" + ("seq" if _m_all_seq(case) else "conc" if all(ph["mode"] == "conc" for ph in case["phases"]) else "mixed"))
+    kinds = set(op["op"] for _, _, _, op in _m_ops(case))
+    t.extend("mop:" + k for k in sorted(kinds))
+    if any(sp.get("batching") for sp in specs):
+        t.append("mbatching")
+    if _m_nontrivial(case, obs):
+        t.append("same-text-through-two-models")
+    if obs.get("hung"):
+        t.append("hung")
+    return t
+
+
+MODELS = ["m0.4", "m1.4", "m2.6", "m3.3"]
+
+
+def g_multi(rng):
+    n = rng.choice([2, 2, 2, 3])
+    alpha = rng.sample(ALPHABET, rng.randint(2, 5))
+    if rng.random() < 0.12:
+        models = [rng.choice(MODELS)] * n
+    else:
+        models = rng.sample(MODELS, n) if rng.random() < 0.7 else [rng.choice(MODELS) for _ in range(n)]
+    uniform = rng.random() < 0.55  # one cache configuration for all indexes (what a rails config usually has)
+    r = rng.random()
+    ustore = "in_memory" if r < 0.4 else "filesystem" if r < 0.75 else "verif_shared" if r < 0.9 else "off"
+    ukg = rng.choice(["md5", "md5", "hash", "verif_hex"])
+    same_loc = rng.random() < 0.3
+    specs = []
+    for i in range(n):
+        if uniform:
+            store, kg = ustore, ukg
+        else:
+            store, kg = rng.choice(["in_memory", "in_memory", "filesystem", "filesystem", "verif_shared", "off"]), rng.choice(["md5", "hash", "verif_hex"])
+        loc = 0 if same_loc else (i if rng.random() < 0.8 else rng.randint(0, n - 1))
+        specs.append({"model": models[i], "cache": {"store": store, "keygen": kg, "loc": loc}, "batching": rng.random() < 0.4,
+                      "max": rng.randint(1, 4), "hold": rng.choice(HOLD), "lats": [rng.choice(LAT) for _ in range(rng.randint(1, 3))]})
+    phases = []
+    allseq = rng.random() < 0.5
+    for _ in range(rng.randint(1, 4)):
+        mode = "seq" if allseq or rng.random() < 0.4 else "conc"
+        ops = []
+        added = set()
+        for _ in range(rng.randint(1, 6)):
+            ix = rng.randrange(n)
+            r = rng.random()
+            if r < 0.4:
+                ops.append({"ix": ix, "op": "get", "texts": g_texts(rng, rng.choice([1, 1, 2, 3, 4]), alpha)})
+            elif r < 0.75:
+                ops.append({"ix": ix, "op": "search", "text": rng.choice(alpha)})
+            elif r < 0.9:
+                if mode == "conc" and ix in added:
+                    continue
+                added.add(ix)
+                ops.append({"ix": ix, "op": "add", "texts": g_texts(rng, rng.randint(1, 4), alpha)})
+            elif mode == "seq":
+                ops.append({"ix": ix, "op": "recreate"})
+            if mode == "conc" and ops and rng.random() < 0.3:
+                ops[-1]["at"] = rng.choice([0, 0.5, 1, 2])
+        if ops:
+            phases.append({"mode": mode, "ops": ops})
+    if not phases:
+        phases = [{"mode": "seq", "ops": [{"ix": 0, "op": "get", "texts": [alpha[0]]}, {"ix": 1, "op": "get", "texts": [alpha[0]]}]}]
+    return {"kind": "multi", "indexes": specs, "phases": phases}
+
+
+def _m_shrink(case):
+    phs = case["phases"]
+    for pi in range(len(phs)):
+        if len(phs) > 1:
+            yield dict(case, phases=phs[:pi] + phs[pi + 1:])
+    for pi, ph in enumerate(phs):
+        for oi in range(len(ph["ops"])):
+            if len(ph["ops"]) > 1:
+                yield dict(case, phases=phs[:pi] + [dict(ph, ops=ph["ops"][:oi] + ph["ops"][oi + 1:])] + phs[pi + 1:])
+        for oi, op in enumerate(ph["ops"]):
+            if "texts" in op and len(op["texts"]) > 1:
+                for q in range(len(op["texts"])):
+                    yield dict(case, phases=phs[:pi] + [dict(ph, ops=ph["ops"][:oi] + [dict(op, texts=op["texts"][:q] + op["texts"][q + 1:])] + ph["ops"][oi + 1:])] + phs[pi + 1:])
+        if ph["mode"] == "conc":
+            yield dict(case, phases=phs[:pi] + [dict(ph, mode="seq", ops=[{k: v for k, v in op.items() if k != "at"} for op in ph["ops"]])] + phs[pi + 1:])
+    used = set(op["ix"] for _, _, _, op in _m_ops(case))
+    if len(case["indexes"]) > 2 or (len(case["indexes"]) > 1 and len(used) < len(case["indexes"])):
+        for i in range(len(case["indexes"])):
+            if i not in used:
+                remap = lambda x: x - 1 if x > i else x  # noqa
+                yield dict(case, indexes=case["indexes"][:i] + case["indexes"][i + 1:],
+                           phases=[dict(ph, ops=[dict(op, ix=remap(op["ix"])) for op in ph["ops"]]) for ph in phs])
+    for i, sp in enumerate(case["indexes"]):
+        if sp.get("batching"):
+            yield dict(case, indexes=case["indexes"][:i] + [dict(sp, batching=False)] + case["indexes"][i + 1:])
+        if sp.get("lats") and sp["lats"] != [None]:
+            yield dict(case, indexes=case["indexes"][:i] + [dict(sp, lats=[None])] + case["indexes"][i + 1:])
+
+
 # ----------------------------------------------------------------------------- model side
 
 def _cfg(case):
@@ -620,6 +1073,8 @@ def _cfg(case):
 
 
 def model_requests(case, obs):
+    if case["kind"] == "multi":
+        return _m_model_requests(case, obs)
     base = {"cfg": _cfg(case), "keys": obs["keys"], "vecs": obs["vecs"], "store": obs["pre"]}
     if case["kind"] == "fn":
         return [dict(base, m="C19.cached", calls=case["calls"])]
@@ -633,6 +1088,8 @@ def model_requests(case, obs):
 
 
 def compare(case, obs, mouts):
+    if case["kind"] == "multi":
+        return _m_compare(case, obs, mouts)
     m = mouts[0]
     if case["kind"] == "fn":
         if any(isinstance(r, dict) for r in obs["results"]):
@@ -673,6 +1130,8 @@ def compare(case, obs, mouts):
 # ----------------------------------------------------------------------------- oracle
 
 def oracle(case, obs):
+    if case["kind"] == "multi":
+        return _m_oracle(case, obs)
     keys = dict(map(tuple, obs["keys"]))
     if len(set(keys.values())) != len(keys):
         return None  # a key collision among the texts in use: outside the property's modelled range
@@ -700,10 +1159,14 @@ def oracle(case, obs):
 
 
 def signature(case, obs, msg):
+    if case.get("kind") == "multi":
+        return _m_signature(case, obs, msg)
     return None
 
 
 def nontrivial(case, obs):
+    if case["kind"] == "multi":
+        return _m_nontrivial(case, obs)
     if case["kind"] == "fn":
         if case["cache"]["store"] == "off":
             return False
@@ -717,6 +1180,8 @@ def nontrivial(case, obs):
 
 
 def tags(case, obs):
+    if case["kind"] == "multi":
+        return _m_tags(case, obs)
     t = ["kind:" + case["kind"], "cache:" + case["cache"]["store"] + ("/" + case["cache"]["keygen"] if case["cache"]["store"] != "off" else "")]
     if case["kind"] == "fn":
         t.append("calls:%d" % len(case["calls"]))
@@ -829,19 +1294,20 @@ def g_exhaustive():
 
 def gen_cases(rng, tier):
     if tier == "quick":
-        nfn, nsch, nbig = 20000, 1200, 100
+        nfn, nsch, nbig, nmulti = 20000, 1200, 100, 4000
     else:
-        nfn, nsch, nbig = 200000, 8500, 1500
+        nfn, nsch, nbig, nmulti = 200000, 8500, 1500, 40000
     cases = [g_fn(rng) for _ in range(nfn)]
     cases += [g_sched(rng) for _ in range(nsch)]
     cases += [g_sched(rng, big=True) for _ in range(nbig)]
+    cases += [g_multi(rng) for _ in range(nmulti)]
     if tier == "thorough":
         cases += list(g_exhaustive())
     return cases
 
 
 def escalate(rng, focus, tier):
-    cases = [g_sched(rng) for _ in range(3000)] + [g_sched(rng, big=True) for _ in range(300)] + [g_fn(rng) for _ in range(20000)]
+    cases = [g_sched(rng) for _ in range(3000)] + [g_sched(rng, big=True) for _ in range(300)] + [g_fn(rng) for _ in range(20000)] + [g_multi(rng) for _ in range(4000)]
     if focus and focus.get("kind") == "sched":
         for _ in range(1500):
             c = json.loads(json.dumps(focus))
@@ -856,6 +1322,9 @@ def escalate(rng, focus, tier):
 
 
 def shrink(case):
+    if case["kind"] == "multi":
+        yield from _m_shrink(case)
+        return
     if case["kind"] == "fn":
         for i in range(len(case["calls"])):
             yield dict(case, calls=case["calls"][:i] + case["calls"][i + 1:])
